@@ -156,7 +156,7 @@ class RenameTie:
         self.chk = chk
         self.nav = Proc([common.build_probe("harness_nav", "mosnav")])
         self.model = Proc([common.build_model("nav")], timeout=60.0)
-        self.n = {"rename_requests": 0, "rename_order_dependent": 0}
+        self.n = {"rename_requests": 0, "rename_order_dependent": 0, "prepare_requests": 0, "classified_by_extracted_predicate": 0}
         self.state = None
 
     def load(self, p):
@@ -204,6 +204,18 @@ class RenameTie:
         if got != want and len([t for t in self.chk.tie_breaks if t[0] == "correspondence:rename"]) < 3:
             self.chk.tie_break("correspondence:rename", "model and server disagree on the edit for `%s` -> `%s` at %s:%d:%d" % (o.text, new_name, o.file, o.line, col),
                                {"files": st["files"], "position": [o.file, o.line, col], "new_name": new_name, "model": got, "server": want})
+
+    def classify(self, o, col):
+        """(Known_import_alias as evaluated by the extracted Coq predicate on the real table / Analysis, model's prepare_rename)"""
+        st = self.state
+        if st is None:
+            return None, None
+        m = self.model.call({"cmd": "classify_rename", "graph": st["graph"], "analysis": st["analysis"], "slices": st["slices"],
+                             "fuel": st["fuel"], "requests": [[st["fidx"][o.file], o.line, col, o.text]]}, timeout=60.0)
+        a = (m.get("answers") or [None])[0]
+        if not isinstance(a, dict):
+            return None, None
+        return a.get("known_import_alias"), a.get("prepare")
 
     def finish(self, stats):
         stats["rename_tie"] = self.n
